@@ -66,6 +66,43 @@ fn tag_numbers(own: u64) -> Vec<u64> {
         own + 65536,
         own << 8,
     ]);
+    // other registries' numbers for the same structures and the generic tags a lenient decoder
+    // might see through: RFC 9277 content-format tags (1668546817 + content format, the COSE
+    // content formats being 16, 17, 18, 96, 97, 98 and 101, 102 for keys), and registered tags
+    // beyond 127
+    for cf in [16u64, 17, 18, 96, 97, 98, 101, 102, 61, 60] {
+        v.push(1_668_546_817 + cf);
+    }
+    v.extend([
+        1_668_546_817u64,
+        1_668_546_817 + own,
+        256,
+        257,
+        258,
+        259,
+        260,
+        261,
+        262,
+        263,
+        264,
+        265,
+        266,
+        267,
+        268,
+        272,
+        273,
+        601,
+        1001,
+        1002,
+        1003,
+        1004,
+        1040,
+        55800,
+        55801,
+        15_309_736,
+        65_534,
+        4_294_967_295,
+    ]);
     v.sort();
     v.dedup();
     v
